@@ -8,7 +8,9 @@ Correspondence, per case (language, configuration, Rust source):
     extracted keyword predicates (good_C10_kw, good_C10_swift_labels) on the declaring positions that
     lib/extract.py finds in the real text, and the grammar validators: the extracted Gallina recogniser of
     the TypeScript declaration grammar (Spec/C10TsGrammar.v), the extracted Gallina recogniser of the Go declaration grammar
-    (Spec/C10GoGrammar.v: tokenizer with semicolon insertion + recursive descent, run on every real Go file), CPython ast.parse + a declaration grammar over
+    (Spec/C10GoGrammar.v: tokenizer with semicolon insertion + recursive descent, run on every real Go file), the extracted Gallina
+    recogniser of the Scala declaration grammar (Spec/C10ScGrammar.v: tokenizer, the newline rule of SLS 1.2, recursive descent after
+    SLS chapter 13; run on every real Scala file), CPython ast.parse + a declaration grammar over
     its AST + import against lib/pydantic_stub for Python, the template recognisers of lib/extract.py
     (nothing unparsed, no anomaly) for all six, plus `= _` in a Scala parameter list;
   * dom_C10 / known_C10 (extracted) on the IR the REAL parser produced classify the case.
@@ -28,12 +30,14 @@ NAME_ERRORS = []   # Python modules that only import after an unbound name is pr
 # (C10-scala-package-brace - `}` without opener under a dotless Scala package - was repaired in /repo: no entry, nothing is
 #  suppressed; its witness stays in WITNESSES below and must pass, dotless packages stay in configs(): a regression is a violation)
 PREDICTS = {
-    'C10-scala-default': {'scala-default'},
+    'C10-scala-default': {'scala-default', 'sc-grammar'},
+    'C10-scala-keyword-name': {'sc-grammar'},
+    'C10-scala-toplevel-alias': {'sc-grammar'},
     'C10-swift-label': {'swift-label'},
     'C10-python-generic-alias': {'py-grammar', 'py-import-at-generic-alias'},
     'C10-python-empty-union': {'py-syntax'},
     'C10-python-digit-name': {'py-syntax', 'identifier', 'template'},
-    'C10-digit-name': {'identifier', 'template', 'ts-grammar', 'go-grammar'},
+    'C10-digit-name': {'identifier', 'template', 'ts-grammar', 'go-grammar', 'sc-grammar'},
     'C10-python-generic-enum-arg': {'py-import-not-subscriptable'},
     'C10-go-keyword-name': {'go-grammar'},
 }
@@ -420,6 +424,9 @@ def judge(chk, cases, tag):
         if lang == 'go':
             goq.append((k, f'(c10_go_parse {S(text)})'))
             goq.append((('cls', k), f'(c10_go_cls {back.items_sx(r["ir"])})'))
+        if lang == 'scala':
+            goq.append((('sc', k), f'(c10_sc_parse {S(text)})'))
+            goq.append((('cls', k), f'(c10_sc_cls {S(cfg.get("package", ""))} {back.items_sx(r["ir"])})'))
     cfgkeys = sorted(set((cases[k][0], json.dumps(cases[k][1], sort_keys=True)) for k in idx))
     cfgq = [f'(c10_cfg {l} {back.cfg_sx(json.loads(c))})' for l, c in cfgkeys]
     goa = dict(zip([k for k, _ in goq], vf.model([q for _, q in goq])))
@@ -466,6 +473,9 @@ def judge(chk, cases, tag):
         if k in goa and goa[k] == 'none':
             fails.append('go-grammar')
             why.append('the extracted recogniser of the Go declaration grammar (Spec/C10GoGrammar.v) rejects the text')
+        if goa.get(('sc', k)) == 'none':
+            fails.append('sc-grammar')
+            why.append('the extracted recogniser of the Scala declaration grammar (Spec/C10ScGrammar.v) rejects the text')
         if vf.sx_get(kwa[j], 'kw') != 'true':
             fails.append('keyword')
             why.append('a declared name that is a keyword of the language is not escaped')
@@ -609,7 +619,7 @@ def phase_folder(chk, n):
             (d / 'ws' / c / 'src' / 'lib.rs').write_text(src)
         # Kotlin twice: the second time under a prefix - the import lines then carry it (`import com.p.lib_crate.KPItem0`, fix 26 of /repo)
         for label, extra in (('typescript', []), ('kotlin', ['--java-package', 'com.p']), ('kotlin+prefix', ['--java-package', 'com.p', '--kotlin-prefix', 'KP']),
-                             ('swift', []), ('python', []), ('go', ['--go-package', 'p'])):
+                             ('swift', []), ('python', []), ('go', ['--go-package', 'p']), ('scala', ['--scala-package', 'com.p'])):
             lang = label.split('+')[0]
             out = d / f'out_{label}'
             out.mkdir()
@@ -623,8 +633,12 @@ def phase_folder(chk, n):
             files = {f.name: f.read_text(errors='replace') for f in sorted(out.iterdir()) if f.is_file()}
             lex = vf.model([f'(c10_lex {lang} {S(t)})' for t in files.values()])
             gog = vf.model([f'(c10_go_parse {S(t)})' for t in files.values()]) if lang == 'go' else [None] * len(files)
-            for (fn, t), lx, gg in zip(files.items(), lex, gog):
+            scg = vf.model([f'(c10_sc_parse {S(t)})' for t in files.values()]) if lang == 'scala' else [None] * len(files)
+            for (fn, t), lx, gg, sg in zip(files.items(), lex, gog, scg):
                 fails, why = [], []
+                if sg == 'none':
+                    fails.append('sc-grammar')
+                    why.append(f'{fn}: rejected by the extracted recogniser of the Scala declaration grammar (Spec/C10ScGrammar.v)')
                 if gg == 'none':
                     fails.append('go-grammar')
                     why.append(f'{fn}: rejected by the extracted recogniser of the Go declaration grammar (Spec/C10GoGrammar.v)')
@@ -648,7 +662,9 @@ def phase_folder(chk, n):
 # label None = witness of a REPAIRED class (fixed in /repo): the case is in no class and every judgement must pass
 WITNESSES = [
     ('scala', {'package': 'onepassword'}, '#[typeshare]\npub struct A { pub x: String }\n', None),
-    ('scala', {'package': 'p'}, '#[typeshare]\npub type Al = Vec<u32>;\n#[typeshare]\npub struct A { pub x: u8 }\n#[typeshare]\npub enum E { U, V }\n', None),
+    ('scala', {'package': 'p'}, '#[typeshare]\npub struct A { pub x: i8 }\n#[typeshare]\npub enum E { U, V }\n', None),
+    ('scala', {'package': 'p'}, '#[typeshare]\npub type Al = Vec<u32>;\n#[typeshare]\npub struct A { pub x: u8 }\n#[typeshare]\npub enum E { U, V }\n', 'C10-scala-toplevel-alias'),
+    ('scala', {'package': 'com.x'}, '#[typeshare]\npub struct S { pub r#type: String, pub val: u8 }\n', 'C10-scala-keyword-name'),
     ('scala', {'package': 'com.x'}, '#[typeshare]\npub struct A { #[serde(default)] pub x: String }\n', 'C10-scala-default'),
     ('swift', {}, '#[typeshare]\npub struct A { pub r#let: String, pub inout: u8 }\n', 'C10-swift-label'),
     ('python', {}, '#[typeshare]\npub type A<T> = Vec<T>;\n', 'C10-python-generic-alias'),
@@ -672,7 +688,9 @@ def lex_expectations(chk):
     tsans = vf.model([f'(c10_ts_parse {S(t)})' for (l, _), t in zip(files, texts) if l == 'typescript'])
     tsit = iter(tsans)
     goit = iter(vf.model([f'(c10_go_parse {S(t)})' for (l, _), t in zip(files, texts) if l == 'go']))
+    scit = iter(vf.model([f'(c10_sc_parse {S(t)})' for (l, _), t in zip(files, texts) if l == 'scala']))
     blame = {'scala-default': 'C10-scala-default', 'py-grammar': 'C10-python-generic-alias'}
+
     for (lang, f), t, a in zip(files, texts, ans):
         chk.count('expectation_files')
         decls, labels, fails, why = observe(lang, t)
@@ -685,8 +703,14 @@ def lex_expectations(chk):
         if lang == 'go' and next(goit) == 'none':
             fails = fails + ['go-grammar']
             why = why + ['rejected by the extracted recogniser of the Go declaration grammar']
+        if lang == 'scala' and next(scit) == 'none':
+            fails = fails + ['sc-grammar']
+            why = why + ['rejected by the extracted recogniser of the Scala declaration grammar']
         name = pathlib.Path(f).parent.name
         for k in fails:
+            if k == 'sc-grammar' and 'scala-default' in fails and chk.known('C10-scala-default', {'file': f}):
+                chk.count('expectation_file_in_class.C10-scala-default')
+                continue
             if k == 'py-grammar' and not any('Subscript' in w for w in why):
                 k = 'py-grammar-other'
             if k in blame and chk.known(blame[k], {'file': f}):
@@ -705,6 +729,7 @@ def run(chk):
     chk.assumptions = [
         'the six lexers of Spec/C10Spec.v are the definition of "delimiters, string literals and comments are closed" (no compiler of the five non-Python languages is installed)',
         'the Go declaration grammar is the recogniser of Spec/C10GoGrammar.v (written from the language specification; function bodies are only checked to be balanced token runs)',
+        'the Scala declaration grammar is the recogniser of Spec/C10ScGrammar.v (written from the Scala 2.13 Language Specification, chapters 1 and 13: operator identifiers, expressions beyond literals and stable identifiers, bounds and imports are outside the subset)',
         'grammar conformance is validated, not proved: CPython ast.parse + import against lib/pydantic_stub for Python; template recognisers of lib/extract.py for the others',
         'doc text is restricted to the safe predicate c10_doc_ok (doc-induced breakage is C15)',
         'a Python NameError at import is name resolution (C09 / C11 / C12) and a duplicate Enum member name is a naming collision (C02): both counted, not judged here; any other import failure is judged',
@@ -805,6 +830,11 @@ def replay(chk, path):
         if d['lang'] == 'go' and vf.model([f'(c10_go_parse {S(text)})'])[0] == 'none':
             fails = fails + ['go-grammar']
             why = why + ['rejected by the extracted recogniser of the Go declaration grammar (Spec/C10GoGrammar.v)']
+        if d['lang'] == 'scala':
+            if vf.model([f'(c10_sc_parse {S(text)})'])[0] == 'none':
+                fails = fails + ['sc-grammar']
+                why = why + ['rejected by the extracted recogniser of the Scala declaration grammar (Spec/C10ScGrammar.v)']
+            print('grammar classes:', vf.dump_sx(vf.model([f'(c10_sc_cls {S(d["cfg"].get("package", ""))} {back.items_sx(r["ir"])})'])[0]))
         print('grammar        :', fails, why)
         bad = lex[0] != 'balanced' or fails or vf.sx_get(kw, 'kw') != 'true' or vf.sx_get(kw, 'labels') != 'true'
         return 1 if bad else 0
